@@ -64,7 +64,7 @@ Fixpoint dedup_str (l : list string) (seen : list string) : list string :=
   | x :: t => if mem_str x seen then dedup_str t seen else x :: dedup_str t (x :: seen)
   end.
 
-Definition dump_regs (s : st) : string :=
+Definition dump_regs (g : cfg) (s : st) : string :=
   let r := rg s in
   let names := dedup_str (map fst (amap r)) [] in
   "k" +++ nat_str (List.length (known r)) +++ " b" +++ nat_str (List.length (kbranch r)) +++ " s" +++ nat_str (List.length (kseq r)) +++
@@ -72,7 +72,7 @@ Definition dump_regs (s : st) : string :=
   " c" +++ nat_str (counter s) +++
   " v[" +++ join "," (dedup_str (List.rev (map fst (views s))) []) +++ "]" +++
   " sc[" +++ join ";" (map (fun v => v +++ "=" +++ match lookup (scache s) v with Some l => join "." l | None => "" end)
-                          (dedup_str (map fst (scache s)) [])) +++ "]" +++
+                          (dedup_str (if schema_aia g then map fst (scache s) else List.rev (map fst (scache s))) [])) +++ "]" +++
   " e" +++ nat_str (List.length (eviews s)).
 
 (** canonical fresh values: step i draws 64*i + k *)
@@ -89,7 +89,7 @@ Fixpoint trace_dump (g : cfg) (w : world) (l : list ev) : list string :=
   | [] => []
   | e :: t =>
       let '(s', bind, ob) := run_step g (w_st w) (w_env w) (dr e) (op e) in
-      (dump_regs s' +++ "#" +++ (match bind with Some (_, f) => dump_frame f | None => "-" end) +++ "#" +++ dump_obs ob)
+      (dump_regs g s' +++ "#" +++ (match bind with Some (_, f) => dump_frame f | None => "-" end) +++ "#" +++ dump_obs ob)
         :: trace_dump g (run_ev g w e) t
   end.
 
